@@ -295,8 +295,17 @@ pub fn round_c02(rt: &tokio::runtime::Runtime, hooks: &Hooks, seed: u64) -> Valu
             let mut last: Option<Scru128Id> = None;
             let mut seq: Vec<u128> = vec![];
             let mut polls = 0u64;
+            let mut stop_seen_at: Option<Instant> = None;
             loop {
                 let stopping = stop.load(Ordering::SeqCst);
+                if stopping && stop_seen_at.is_none() {
+                    stop_seen_at = Some(Instant::now());
+                }
+                // bounded: a poller that never reaches an empty poll (e.g. last-id not exclusive) must not hang the round;
+                // what it collected is still judged below (duplicates, order)
+                if stop_seen_at.map(|t| t.elapsed() > Duration::from_secs(5)).unwrap_or(false) || seq.len() > 200_000 {
+                    break;
+                }
                 let call = us(base);
                 let batch: Vec<Frame> = if use_async {
                     rth.block_on(async {
